@@ -1,3 +1,40 @@
-From Coq Require Import List.
-Theorem C11_placeholder : True. Proof. exact I. Qed.
-Print Assumptions C11_placeholder.
+(* C11 — marginal queries = per-sample integration (executable level)
+   Property theorems only: each is closed by `exact <lemma>`; proofs live in the imported files. *)
+From Coq Require Import List ZArith QArith Qcanon Ring_theory Field_theory Permutation Sorted.
+Import ListNotations.
+From CK Require Import Base.
+From CK Require Import Circ.
+From CK Require Import Integrate.
+From CK Require Import Scalar.
+From CK Require Import Tensor.
+From CK Require Import Pexpr.
+From CK Require Import Exec.
+From CK Require Import Ops.
+From CK Require Import Struct.
+From CK Require Import Link.
+Close Scope Qc_scope. Close Scope Q_scope. Close Scope Z_scope. Open Scope nat_scope.
+
+(* on the algebraic fragment, every unit of every node of the executable integrate_m result is the iterated sum, over all states of the integrated variables in that node's scope, of the executable denotation of the original circuit *)
+Theorem C11_marginal_is_sum :
+  forall (dom : nat -> nat) (Z : list nat) (c c' : circuit) (y : asg),
+         NoDup Z ->
+         frag c = true ->
+         shapes c = true ->
+         doms dom c = true ->
+         wf c = true ->
+         integrate_m Z c = Ok c' ->
+         inrange c y = true ->
+         exists vals' : list cvec,
+           den_all c' y = Some vals' /\
+           (forall o k : nat,
+            o < length (nodes c) ->
+            nth k (nth o vals' []) c0 = sum_states dom (zs_of Z (nth o (scopes c) [])) (dval c o k) y).
+Proof. exact integrate_exec_den. Qed.
+Print Assumptions C11_marginal_is_sum.
+
+(* the executable denotation is the semantic evaluation of the interpreted circuit (defined exactly when every embedding index is in range) *)
+Theorem C11_denotation_is_semantic :
+  forall (c : circuit) (y : asg),
+         frag c = true -> den_all c y = (if inrange c y then Some (SEval (interp c) (afun y)) else None).
+Proof. exact den_all_spec. Qed.
+Print Assumptions C11_denotation_is_semantic.
